@@ -76,6 +76,11 @@ pub const ORIGINS: &[&str] = &[
     "a.test:8080",
     "b.test:80",
     "a.test:443",
+    // ports beyond 65535: `http::Uri` accepts them (its `port()` then answers None); whatever they mean,
+    // they are not the port-less origin and not one another (35..)
+    "http://big.test/",
+    "http://big.test:65536/",
+    "http://big.test:70000/",
 ];
 
 pub const NEAR_MISS_FROM: usize = 6;
@@ -98,7 +103,21 @@ pub fn origin_key(uri: &http::Uri) -> String {
         "https" | "wss" => 443,
         _ => 0,
     };
-    format!("{}://{}:{}", scheme, uri.host().unwrap_or("").to_ascii_lowercase(), uri.port_u16().unwrap_or(default_port))
+    // the port as written: a number that is no u16 stays what it is (it is not "no port")
+    let written: Option<&str> = uri.authority().and_then(|a| {
+        let a = a.as_str();
+        let a = a.rsplit_once('@').map(|(_, h)| h).unwrap_or(a);
+        if let Some(rest) = a.strip_prefix('[') {
+            rest.split_once("]:").map(|(_, p)| p)
+        } else {
+            a.rsplit_once(':').map(|(_, p)| p)
+        }
+    });
+    let port = match written {
+        None | Some("") => default_port.to_string(),
+        Some(p) => p.parse::<u16>().map(|n| n.to_string()).unwrap_or_else(|_| p.to_string()),
+    };
+    format!("{}://{}:{}", scheme, uri.host().unwrap_or("").to_ascii_lowercase(), port)
 }
 
 #[derive(Clone, Copy, Debug, PartialEq, Eq)]
@@ -2763,7 +2782,7 @@ pub fn near_origins_strategy(wt: Weights, max_ops: usize) -> impl Strategy<Value
         let wt = Weights { origins: k as u8, ..wt };
         (
             proptest::collection::vec(0u16..=u16::MAX, k),
-            0u8..8,
+            0u8..9,
             cfg_any_strategy(),
             proptest::collection::vec(op_strategy(wt), 0..max_ops),
         )
@@ -2777,6 +2796,7 @@ pub fn near_origins_strategy(wt: Weights, max_ops: usize) -> impl Strategy<Value
                     3 => vec![29, 30, 31],
                     4 => vec![12, 13, 14, 15, 16],
                     5 => vec![2, 32, 3, 33, 6, 34, 22],
+                    6 => vec![35, 36, 37, 3],
                     _ => (0..ORIGINS.len() as u8).collect(),
                 };
                 let chosen: Vec<u8> = picks.iter().map(|r| pool[idx(*r, pool.len()).unwrap_or(0)]).collect();
